@@ -466,7 +466,9 @@ func mgAliasCase(p *reg.Pkg, seed int64, tier string, id *int, tf *treeFile, sum
 		g.emptyLL = rng.Intn(5) == 0
 		g.emptyConts = rng.Intn(4) == 0
 		t := g.genTree()
-		mgWrapperBinaries(rng, p, t)
+		if n := mgWrapperBinaries(rng, p, t); n > 0 {
+			sum.count("wrapper_binary_leaves", fmt.Sprint(n))
+		}
 		mgFixEmptyUnionBinary(t)
 		tt := treeTerm(t)
 		c, err, pan := mgSafeCopy(t)
@@ -547,6 +549,10 @@ func mgAliasCase(p *reg.Pkg, seed int64, tier string, id *int, tf *treeFile, sum
 	ow, em := false, false
 	for try := 0; try < 6; try++ {
 		pr = mgGenPair(rng, p, "")
+		// a wrapper-union binary leaf on one side only (on both it would be a conflict)
+		if n := mgWrapperBinaries(rng, p, pick(rng, []ygot.ValidatedGoStruct{pr.a, pr.b})); n > 0 {
+			sum.count("wrapper_binary_leaves", fmt.Sprint(n))
+		}
 		ow, em = rng.Intn(4) == 0, rng.Intn(4) == 0
 		var err error
 		var pan bool
@@ -643,7 +649,7 @@ func mgAliasStream(rng *rand.Rand, n int, tier string, out string) (*Summary, er
 // holds its binary member (the generated To_<Union> helper takes the package's Binary type, not
 // []byte); here such leaves are set directly, so that the byte array inside the wrapper struct is
 // part of what DeepCopy / MergeStructs have to copy.
-func mgWrapperBinaries(rng *rand.Rand, p *reg.Pkg, t ygot.GoStruct) {
+func mgWrapperBinaries(rng *rand.Rand, p *reg.Pkg, t ygot.GoStruct) (set int) {
 	if !p.Flags["wrapper_unions"] {
 		return
 	}
@@ -668,18 +674,34 @@ func mgWrapperBinaries(rng *rand.Rand, p *reg.Pkg, t ygot.GoStruct) {
 	if binT == nil {
 		return
 	}
-	for _, s := range mgSlots(p, t) {
-		if s.kind != "leaf" || s.isKey || s.sf.Type.Kind() != reflect.Interface || rng.Intn(2) != 0 {
-			continue
-		}
-		to := s.parent.MethodByName("To_" + s.sf.Type.Name())
-		if !to.IsValid() {
-			continue
-		}
-		b := reflect.MakeSlice(binT, 3, 3)
-		reflect.Copy(b, reflect.ValueOf([]byte{0x10, 0x20, byte(rng.Intn(256))}))
-		if out := to.Call([]reflect.Value{b}); out[1].IsNil() {
-			s.field().Set(out[0])
+	// every union leaf field (set or not: the generator leaves a union with a binary member unset
+	// in wrapper packages) of every struct of the tree
+	structs := []reflect.Value{reflect.ValueOf(t)}
+	vdCollectStructs(reflect.ValueOf(t), &structs, 0)
+	for _, sp := range structs {
+		st := sp.Elem()
+		for i := 0; i < st.NumField(); i++ {
+			sf := st.Type().Field(i)
+			if _, ok := sf.Tag.Lookup("path"); !ok || sf.Type.Kind() != reflect.Interface {
+				continue
+			}
+			to := sp.MethodByName("To_" + sf.Type.Name())
+			if !to.IsValid() {
+				continue
+			}
+			b := reflect.MakeSlice(binT, 3, 3)
+			reflect.Copy(b, reflect.ValueOf([]byte{0x10, 0x20, byte(rng.Intn(256))}))
+			if out := to.Call([]reflect.Value{b}); out[1].IsNil() {
+				// not a list key: the key leaves of an entry must equal its map key
+				if e := p.SchemaTree[st.Type().Name()]; e != nil && e.IsList() && strings.Contains(" "+e.Key+" ", " "+strings.Split(sf.Tag.Get("path"), "|")[0]+" ") {
+					continue
+				}
+				if rng.Intn(4) != 0 {
+					st.Field(i).Set(out[0])
+					set++
+				}
+			}
 		}
 	}
+	return set
 }
